@@ -52,7 +52,7 @@ def impure_ice_permittivity_maetzler06(frequency, temperature, salinity):
 
 
 @layer_properties("temperature", "brine_volume_fraction",
-                  optional=("brine_inclusion_shape", "brine_mixing_ratio", "ice_permittivity_model", "brine_permittivity_model"))
+                  optional_arguments=("brine_inclusion_shape", "brine_mixing_ratio", "ice_permittivity_model", "brine_permittivity_model"))
 def saline_ice_permittivity_pvs_mixing(frequency, temperature, brine_volume_fraction, brine_inclusion_shape='spheres',
                                        brine_mixing_ratio=1, ice_permittivity_model=None, brine_permittivity_model=None):
     """Computes effective permittivity of saline ice using the Polder Van Santen mixing formulaes.
